@@ -26,7 +26,7 @@ func init() {
 	engine.Register(&engine.Property{
 		ID:    "C03",
 		Level: "exploration",
-		Rule: "the complete Value() log of search.All(n, a, m) for every a < m is recorded for n = 0..9 (10 thorough) and m in {1,2,3,4,5,7,16}, and of search.WithPruning for 11 hereditary predicates placed as preprune, as prune and as both; an offline checker over the logs requires: every value a well-formed n-vertex graph, no two values of a configuration isomorphic (harness invariant buckets + backtracking isomorphism test), total count over the m shards equal to the Polya count (together: set equality with the classes, shards disjoint), and pruned outputs equal to the predicate-filtered class list. " +
+		Rule: "the complete Value() log of search.All(n, a, m) for every a < m is recorded for n = 0..9 (10 thorough) and m in {1,2,3,4,5,7,16}, and of search.WithPruning for 11 hereditary predicates placed as preprune, as prune and as both; an offline checker over the logs requires: every value a well-formed n-vertex graph, no two values of a configuration isomorphic (harness invariant buckets + backtracking isomorphism test), total count over the m shards equal to the Polya count (together: set equality with the classes, shards disjoint), and pruned outputs equal to the predicate-filtered class list; restricted searches (forests, max degree <= 2 / 3, triangle-free, C4-free and the complements of these classes) at n = 10..13 are compared with the harness-owned restricted class generator. " +
 			"non-trivial = yielded value with n >= 4; distinct = (configuration, graph6 of the value)",
 		Assumptions: []string{
 			"duplicate detection: iso.Invariant buckets, every collision decided by the harness's isomorphism search (independent of the library's canonical form)",
@@ -37,21 +37,32 @@ func init() {
 		Finish:         finish,
 		MinEvaluations: map[string]int{"quick": 500000, "thorough": 20000000},
 		MinNontrivial:  map[string]int{"quick": 300000, "thorough": 10000000},
-		RequiredObs:    []string{"configs_all", "configs_pruned", "values_wellformed_checked", "predicate_calls"},
+		RequiredObs:    []string{"configs_all", "configs_pruned", "values_wellformed_checked", "predicate_calls", "configs_big_restricted_checked"},
 	})
 }
 
 type config struct {
 	n, m      int
-	pred      int // -1: All
-	placement int // 0 preprune, 1 prune, 2 both
+	pred      int  // -1: All
+	placement int  // 0 preprune, 1 prune, 2 both
+	co        bool // the predicate is applied to the complement (complements of hereditary classes are hereditary)
+	big       bool // restricted search at a size where the reference is the harness-owned restricted class generator
+}
+
+// predicate returns the (possibly complemented) predicate of the configuration.
+func (cf config) predicate() srch.Pred {
+	p := srch.Preds()[cf.pred]
+	if !cf.co {
+		return p
+	}
+	return srch.Pred{Name: "co-" + p.Name, Has: func(g *rg.G) bool { return p.Has(g.Complement()) }}
 }
 
 func (cf config) name() string {
 	if cf.pred < 0 {
 		return fmt.Sprintf("All-n%d-m%d", cf.n, cf.m)
 	}
-	return fmt.Sprintf("Pruned-n%d-m%d-%s-%s", cf.n, cf.m, srch.Preds()[cf.pred].Name, []string{"preprune", "prune", "both"}[cf.placement])
+	return fmt.Sprintf("Pruned-n%d-m%d-%s-%s", cf.n, cf.m, cf.predicate().Name, []string{"preprune", "prune", "both"}[cf.placement])
 }
 
 func (cf config) stream() string {
@@ -68,7 +79,7 @@ func runShard(c *engine.Ctx, cf config, a int) {
 		if cf.pred < 0 {
 			it = search.All(cf.n, a, cf.m)
 		} else {
-			p := srch.Preds()[cf.pred]
+			p := cf.predicate()
 			pre, pru := srch.None, srch.None
 			if cf.placement == 0 || cf.placement == 2 {
 				pre = srch.AsPrune(p, &calls, &bad)
@@ -157,37 +168,177 @@ func configs(thorough bool) []config {
 	ms := []int{1, 2, 3, 4, 5, 7, 16}
 	for n := 0; n <= 8; n++ {
 		for _, m := range ms {
-			r = append(r, config{n, m, -1, 0})
+			r = append(r, config{n, m, -1, 0, false, false})
 		}
 	}
 	if thorough {
 		for _, m := range ms {
-			r = append(r, config{9, m, -1, 0})
+			r = append(r, config{9, m, -1, 0, false, false})
 		}
-		r = append(r, config{10, 1, -1, 0}, config{10, 16, -1, 0})
+		r = append(r, config{10, 1, -1, 0, false, false}, config{10, 16, -1, 0, false, false})
 	} else {
-		r = append(r, config{9, 1, -1, 0}, config{9, 4, -1, 0})
+		r = append(r, config{9, 1, -1, 0, false, false}, config{9, 4, -1, 0, false, false})
 	}
 	np := len(srch.Preds())
 	for p := 0; p < np; p++ {
 		for pl := 0; pl < 3; pl++ {
 			for _, n := range []int{0, 1, 2, 3, 4, 5, 6, 7} {
-				r = append(r, config{n, 1, p, pl})
+				r = append(r, config{n, 1, p, pl, false, false})
 			}
-			r = append(r, config{7, 3, p, pl})
+			r = append(r, config{7, 3, p, pl, false, false})
 			planar := srch.Preds()[p].Name == "planar"
 			if !planar || thorough {
-				r = append(r, config{8, 1, p, pl}, config{8, 4, p, pl})
+				r = append(r, config{8, 1, p, pl, false, false}, config{8, 4, p, pl, false, false})
 			}
 			if thorough && !planar {
-				r = append(r, config{9, 1, p, pl}, config{9, 5, p, pl})
+				r = append(r, config{9, 1, p, pl, false, false}, config{9, 5, p, pl, false, false})
 			}
+		}
+	}
+	// restricted searches beyond the sizes where the whole class list is available: sparse hereditary classes and
+	// their complements at n = 10..13; reference = the harness-owned restricted class generator (see restricted()).
+	idx := map[string]int{}
+	for i, p := range srch.Preds() {
+		idx[p.Name] = i
+	}
+	bigs := []struct {
+		pred string
+		ns   []int
+	}{
+		{"forest", []int{10, 11, 12}}, {"maxdeg<=2", []int{10, 11, 12, 13}}, {"maxdeg<=3", []int{10}}, {"triangle-free", []int{10}}, {"C4-free", []int{10}},
+	}
+	for _, b := range bigs {
+		for _, n := range b.ns {
+			for _, co := range []bool{false, true} {
+				for _, pl := range []int{0, 1} {
+					if pl == 1 && n > 10 {
+						continue // as prune every canonical augmentation is built first: keep the cost down
+					}
+					m := 1
+					if pl == 0 && n == 10 {
+						m = 3
+					}
+					r = append(r, config{n: n, m: m, pred: idx[b.pred], placement: pl, co: co, big: true})
+				}
+			}
+		}
+	}
+	if thorough {
+		for _, co := range []bool{false, true} {
+			r = append(r, config{n: 11, m: 2, pred: idx["maxdeg<=3"], placement: 0, co: co, big: true}, config{n: 11, m: 1, pred: idx["triangle-free"], placement: 0, co: co, big: true},
+				config{n: 11, m: 1, pred: idx["C4-free"], placement: 0, co: co, big: true}, config{n: 13, m: 1, pred: idx["forest"], placement: 0, co: co, big: true},
+				config{n: 10, m: 1, pred: idx["bipartite"], placement: 0, co: co, big: true})
 		}
 	}
 	return r
 }
 
+// restricted returns the isomorphism classes on n vertices satisfying the hereditary predicate p, generated by the
+// harness (extension of the classes on n-1 vertices by a minimum-degree vertex, predicate filter, invariant buckets,
+// isomorphism search).  It does not use the library.
+var (
+	restrictedMu   sync.Mutex
+	restrictedMemo = map[string][]*rg.G{}
+)
+
+func restricted(n int, p srch.Pred) []*rg.G {
+	restrictedMu.Lock()
+	defer restrictedMu.Unlock()
+	return restrictedLocked(n, p)
+}
+
+func restrictedLocked(n int, p srch.Pred) []*rg.G {
+	key := fmt.Sprintf("%s/%d", p.Name, n)
+	if r, ok := restrictedMemo[key]; ok {
+		return r
+	}
+	var out []*rg.G
+	if n <= 6 {
+		for _, g := range gen.Classes(n) {
+			if p.Has(g) {
+				out = append(out, g)
+			}
+		}
+		restrictedMemo[key] = out
+		return out
+	}
+	prev := restrictedLocked(n-1, p)
+	type cand struct {
+		g   *rg.G
+		inv uint64
+	}
+	res := make([][]cand, len(prev))
+	var wg sync.WaitGroup
+	sem := make(chan struct{}, 16)
+	for pi := range prev {
+		wg.Add(1)
+		sem <- struct{}{}
+		go func(pi int) {
+			defer wg.Done()
+			defer func() { <-sem }()
+			par := prev[pi]
+			mind := n
+			for v := 0; v < n-1; v++ {
+				if d := par.Deg(v); d < mind {
+					mind = d
+				}
+			}
+			var nb []int
+			var rec func(v int)
+			rec = func(v int) {
+				if len(nb) > mind+1 {
+					return // the new vertex must have minimum degree in the extension
+				}
+				if v == n-1 {
+					h := par.AddVertex(nb)
+					d := len(nb)
+					for u := 0; u < n-1; u++ {
+						if h.Deg(u) < d {
+							return
+						}
+					}
+					if p.Has(h) {
+						res[pi] = append(res[pi], cand{h, iso.Invariant(h)})
+					}
+					return
+				}
+				rec(v + 1)
+				nb = append(nb, v)
+				rec(v + 1)
+				nb = nb[:len(nb)-1]
+			}
+			rec(0)
+		}(pi)
+	}
+	wg.Wait()
+	buckets := map[uint64][]*rg.G{}
+	for _, cs := range res {
+		for _, cd := range cs {
+			dup := false
+			for _, q := range buckets[cd.inv] {
+				if iso.Isomorphic(cd.g, q) {
+					dup = true
+					break
+				}
+			}
+			if !dup {
+				buckets[cd.inv] = append(buckets[cd.inv], cd.g)
+				out = append(out, cd.g)
+			}
+		}
+	}
+	restrictedMemo[key] = out
+	return out
+}
+
+// published counts used to validate restricted() (OEIS A005195 forests, A006785 triangle-free graphs)
+var (
+	forestCounts       = []int{1, 1, 2, 3, 6, 10, 20, 37, 76, 153, 329, 710, 1601, 3654}
+	triangleFreeCounts = []int{1, 1, 2, 3, 7, 14, 38, 107, 410, 1897, 12172, 105071}
+)
+
 func run(c *engine.Ctx) {
+
 	for _, cf := range configs(c.Thorough()) {
 		cf := cf
 		if cf.n >= 9 {
@@ -363,7 +514,7 @@ func finish(s *engine.Super) {
 			continue
 		}
 		// pruned configuration: every value satisfies P, set equals the P-filtered classes
-		p := srch.Preds()[cf.pred]
+		p := cf.predicate()
 		badIdx := -1
 		for i, v := range vals {
 			if !p.Has(rg.FromG6(v.g6)) {
@@ -377,7 +528,37 @@ func finish(s *engine.Super) {
 		}
 		var want int64 = -1
 		var classes []*rg.G
-		if cf.n <= 8 {
+		if cf.big {
+			base := srch.Preds()[cf.pred]
+			ref := restricted(cf.n, base)
+			want = int64(len(ref))
+			switch base.Name {
+			case "forest":
+				if cf.n < len(forestCounts) && forestCounts[cf.n] != len(ref) {
+					s.Inconclusive(fmt.Sprintf("harness generator gives %d forests on %d vertices, OEIS A005195 says %d", len(ref), cf.n, forestCounts[cf.n]))
+					continue
+				}
+			case "triangle-free":
+				if cf.n < len(triangleFreeCounts) && triangleFreeCounts[cf.n] != len(ref) {
+					s.Inconclusive(fmt.Sprintf("harness generator gives %d triangle-free graphs on %d vertices, OEIS A006785 says %d", len(ref), cf.n, triangleFreeCounts[cf.n]))
+					continue
+				}
+			}
+			if int64(len(vals)) < want {
+				for _, g := range ref {
+					x := g
+					if cf.co {
+						x = g.Complement()
+					}
+					classes = append(classes, x)
+				}
+			}
+			s.AddObs("configs_big_restricted_checked", 1)
+			if k := fmt.Sprintf("restricted_reference_classes:%s/n=%d", base.Name, cf.n); s.Obs(k) == 0 {
+				s.AddObs(k, int64(len(ref)))
+			}
+		} else if cf.n <= 8 {
+
 			for _, g := range gen.Classes(cf.n) {
 				if p.Has(g) {
 					classes = append(classes, g)
@@ -400,7 +581,7 @@ func finish(s *engine.Super) {
 			key := fmt.Sprintf("prune|count|%s", cf.name())
 			obs := fmt.Sprintf("%d values", len(vals))
 			detail := map[string]interface{}{"config": cf.name(), "count": len(vals), "expected": want}
-			if cf.n <= 8 && int64(len(vals)) < want {
+			if (cf.n <= 8 || cf.big) && int64(len(vals)) < want {
 				if miss := missingClass(cf.n, vals, invs, classes); miss != "" {
 					key = fmt.Sprintf("prune|missing|%s|%s", cf.name(), miss)
 					obs += "; class " + miss + " satisfies the predicate but is not yielded"
